@@ -1134,6 +1134,9 @@ peg::parser! {
         rule variable_name() -> &'input str =
             $(!['0'..='9'] ['_' | '0'..='9' | 'a'..='z' | 'A'..='Z']+)
 
+        // N.B. Memoized: when the construct is not closed the enclosing rules fall back to reading
+        // the `$` as text and come back here for every nested opener (exponential otherwise).
+        #[cache]
         pub(crate) rule command_substitution() -> WordPiece =
             "$(" c:command() ")" { WordPiece::CommandSubstitution(c.to_owned()) } /
             "`" c:backquoted_command() "`" { WordPiece::BackquotedCommandSubstitution(c) }
@@ -1154,9 +1157,15 @@ peg::parser! {
             "\\\\" { "\\\\" } /
             s:$([^'`']) { s }
 
+        // N.B. Memoized: when the construct is not closed the enclosing rules fall back to reading
+        // the `$` as text and come back here for every nested opener (exponential otherwise).
+        #[cache]
         rule arithmetic_expansion() -> WordPiece =
             "$((" e:$(arithmetic_word(<"))">)) "))" { WordPiece::ArithmeticExpression(ast::UnexpandedArithmeticExpr { value: e.to_owned() } ) }
 
+        // N.B. Memoized: when the construct is not closed the enclosing rules fall back to reading
+        // the `$` as text and come back here for every nested opener (exponential otherwise).
+        #[cache]
         rule legacy_arithmetic_expansion() -> WordPiece =
             "$[" e:$(arithmetic_word(<"]">)) "]" { WordPiece::ArithmeticExpression(ast::UnexpandedArithmeticExpr { value: e.to_owned() } ) }
 
@@ -1166,12 +1175,21 @@ peg::parser! {
         rule substring_length() -> ast::UnexpandedArithmeticExpr =
             s:$(arithmetic_word(<[':' | '}']>)) { ast::UnexpandedArithmeticExpr { value: s.to_owned() } }
 
+        // N.B. Memoized: the alternatives of the parameter-expression rules each re-parse this
+        // nested word, which is exponential in the nesting depth when the expression is not closed.
+        #[cache]
         rule parameter_replacement_str() -> String =
             "/" s:$(word(<['}']>)) { s.to_owned() }
 
+        // N.B. Memoized: the alternatives of the parameter-expression rules each re-parse this
+        // nested word, which is exponential in the nesting depth when the expression is not closed.
+        #[cache]
         rule parameter_search_pattern() -> String =
             s:$(word(<['}' | '/']>)) { s.to_owned() }
 
+        // N.B. Memoized: the alternatives of the parameter-expression rules each re-parse this
+        // nested word, which is exponential in the nesting depth when the expression is not closed.
+        #[cache]
         rule parameter_expression_word() -> String =
             s:$(word(<['}']>)) { s.to_owned() }
 
